@@ -44,11 +44,11 @@ Lemma loop_eq c n idm outs budget k s :
       match fail_step c n s with
       | None => stop s s RCrash
       | Some s1 =>
-          if negb (on_retry c) then stop s s1 (result_of o)
+          if negb (has_retry c) then stop s s1 (result_of o)
           else if negb idm then stop s s1 (result_of o)
           else match budget with
                | O => stop s s1 (result_of o)
-               | S b => push (url s) (loop c n idm outs b (S k) (retry_step s1))
+               | S b => push (url s) (loop c n idm outs b (S k) (retry_step c n s1))
                end
       end
   end.
@@ -60,12 +60,12 @@ Lemma loop_induction c n idm outs (P : nat -> nat -> cstate -> obs -> Prop) :
   (forall b k s r, outs k = Ok r -> P b k s (stop s (success_step s) (RResp r))) ->
   (forall b k s, is_ok (outs k) = false -> fail_step c n s = None -> P b k s (stop s s RCrash)) ->
   (forall b k s s1, is_ok (outs k) = false -> fail_step c n s = Some s1 ->
-     (on_retry c = false \/ idm = false \/ b = O) ->
+     (has_retry c = false \/ idm = false \/ b = O) ->
      P b k s (stop s s1 (result_of (outs k)))) ->
   (forall b k s s1, is_ok (outs k) = false -> fail_step c n s = Some s1 ->
-     on_retry c = true -> idm = true ->
-     P b (S k) (retry_step s1) (loop c n idm outs b (S k) (retry_step s1)) ->
-     P (S b) k s (push (url s) (loop c n idm outs b (S k) (retry_step s1)))) ->
+     has_retry c = true -> idm = true ->
+     P b (S k) (retry_step c n s1) (loop c n idm outs b (S k) (retry_step c n s1)) ->
+     P (S b) k s (push (url s) (loop c n idm outs b (S k) (retry_step c n s1)))) ->
   forall b k s, P b k s (loop c n idm outs b k s).
 Proof.
   intros Hok Hcrash Hstop Hretry.
@@ -74,14 +74,14 @@ Proof.
     all: assert (Hf : is_ok (outs k) = false) by (rewrite Ho; reflexivity).
     all: destruct (fail_step c n s) as [s1 |] eqn:Hfs; [| apply Hcrash; assumption].
     all: rewrite <- Ho.
-    all: destruct (on_retry c) eqn:Hr; cbn [negb];
+    all: destruct (has_retry c) eqn:Hr; cbn [negb];
       [| apply Hstop; auto].
     all: destruct idm eqn:Hi; cbn [negb]; apply Hstop; auto.
   - destruct (outs k) as [r | e | p] eqn:Ho; [apply Hok; exact Ho | |].
     all: assert (Hf : is_ok (outs k) = false) by (rewrite Ho; reflexivity).
     all: destruct (fail_step c n s) as [s1 |] eqn:Hfs; [| apply Hcrash; assumption].
     all: rewrite <- Ho.
-    all: destruct (on_retry c) eqn:Hr; cbn [negb];
+    all: destruct (has_retry c) eqn:Hr; cbn [negb];
       [| apply Hstop; auto].
     all: destruct idm eqn:Hi; cbn [negb]; [| apply Hstop; auto].
     all: apply Hretry; auto.
@@ -124,7 +124,7 @@ Qed.
 
 (* retries switched off (OnRetry nil, or the call is not idempotent): exactly one attempt *)
 Lemma loop_disabled c n idm outs b k s :
-  on_retry c = false \/ idm = false ->
+  has_retry c = false \/ idm = false ->
   attempts (loop c n idm outs b k s) = [url s].
 Proof.
   intros Hd.
@@ -159,7 +159,7 @@ Proof.
   - intros. left. reflexivity.
   - intros b0 k0 s0 s1 _ _ _. right. replace (k0 + 1 - 1)%nat with k0 by lia. reflexivity.
   - intros b0 k0 s0 s1 _ _ _ _ IH.
-    pose proof (loop_bounds c n idm outs b0 (S k0) (retry_step s1)) as Hb. unfold nattempts in Hb.
+    pose proof (loop_bounds c n idm outs b0 (S k0) (retry_step c n s1)) as Hb. unfold nattempts in Hb.
     destruct IH as [IH | IH]; [left; exact IH | right].
     rewrite IH. f_equal. f_equal. lia.
 Qed.
@@ -179,7 +179,7 @@ Qed.
 (* with retries switched on the recursion stops early only at a success *)
 Lemma loop_early_stop c n idm outs b k s :
   let o := loop c n idm outs b k s in
-  on_retry c = true -> idm = true -> res o <> RCrash -> (nattempts o < S b)%nat ->
+  has_retry c = true -> idm = true -> res o <> RCrash -> (nattempts o < S b)%nat ->
   is_ok (outs (k + nattempts o - 1)%nat) = true.
 Proof.
   intros o Hr Hi. subst o.
@@ -191,9 +191,9 @@ Proof.
   - intros; congruence.
   - intros b0 k0 s0 s1 _ _ [Hd | [Hd | Hd]] _ Hlt; try congruence. lia.
   - intros b0 k0 s0 s1 _ _ _ _ IH Hc Hlt.
-    pose proof (loop_bounds c n idm outs b0 (S k0) (retry_step s1)) as Hb. unfold nattempts in Hb.
-    replace (k0 + S (length (attempts (loop c n idm outs b0 (S k0) (retry_step s1)))) - 1)%nat
-      with (S k0 + length (attempts (loop c n idm outs b0 (S k0) (retry_step s1))) - 1)%nat by lia.
+    pose proof (loop_bounds c n idm outs b0 (S k0) (retry_step c n s1)) as Hb. unfold nattempts in Hb.
+    replace (k0 + S (length (attempts (loop c n idm outs b0 (S k0) (retry_step c n s1)))) - 1)%nat
+      with (S k0 + length (attempts (loop c n idm outs b0 (S k0) (retry_step c n s1))) - 1)%nat by lia.
     apply IH; [exact Hc | lia].
 Qed.
 
@@ -256,9 +256,9 @@ Proof.
       destruct (outs k0); cbn in *; try discriminate; lia.
   - intros b0 k0 s0 s1 _ Hs _ _ IH Hc. rewrite (IH Hc). cbn [retry_step nfail].
     rewrite (fail_step_nfail _ _ _ _ Hs).
-    pose proof (loop_bounds c n idm outs b0 (S k0) (retry_step s1)) as Hb. unfold nattempts in Hb.
+    pose proof (loop_bounds c n idm outs b0 (S k0) (retry_step c n s1)) as Hb. unfold nattempts in Hb.
     destruct (on_failure c); [congruence | |];
-      destruct (res (loop c n idm outs b0 (S k0) (retry_step s1))); lia.
+      destruct (res (loop c n idm outs b0 (S k0) (retry_step c n s1))); lia.
 Qed.
 
 (* ---- the literal Go recursion terminates and equals the structural one ---- *)
@@ -270,12 +270,12 @@ Proof.
   rewrite loop_eq. cbn [loop_lit].
   destruct (outs k) as [r | e | p]; [reflexivity | |].
   all: destruct (fail_step c n s) as [s1 |] eqn:Hfs; [| reflexivity].
-  all: destruct (on_retry c); cbn [negb]; [| reflexivity].
+  all: destruct (has_retry c); cbn [negb]; [| reflexivity].
   all: pose proof (fail_step_retried _ _ _ _ Hfs) as Hrd.
   all: destruct idm; cbn [negb andb]; [| reflexivity].
   all: destruct (retried s1 <? rty) eqn:Hcmp.
   all: try (apply Z.ltb_lt in Hcmp; destruct b as [| b']; [lia |];
-            rewrite (IH b' (S k) (retry_step s1)); [reflexivity | cbn [retry_step retried]; lia | lia]).
+            rewrite (IH b' (S k) (retry_step c n s1)); [reflexivity | cbn [retry_step retried]; lia | lia]).
   all: apply Z.ltb_ge in Hcmp; destruct b as [| b']; [reflexivity | lia].
 Qed.
 
@@ -323,7 +323,7 @@ Proof.
   - intros b k s s1 _ Hs _ _ IH Hix.
     destruct (fail_step_rotate c n s Hm Hn Hix) as (s1' & Hs' & Hu & Hi).
     rewrite Hs in Hs'. injection Hs' as <-.
-    assert (Hix1 : ix_ok n (index (retry_step s1))).
+    assert (Hix1 : ix_ok n (index (retry_step c n s1))).
     { cbn [retry_step index]. rewrite Hi. apply mod_ix_ok. lia. }
     destruct (IH Hix1) as (H0 & Hj & Hfin).
     split; [reflexivity |]. split; [| exact Hfin].
@@ -406,7 +406,7 @@ Proof.
 Qed.
 
 Lemma handle_failfast_once c n ix cl :
-  on_retry c = false ->
+  has_retry c = false ->
   attempts (handle c n ix cl) = [url (start n ix (it_retried cl))] /\
   (res (handle c n ix cl) = RCrash \/ res (handle c n ix cl) = result_of (script cl 0%nat)).
 Proof.
@@ -443,7 +443,7 @@ Qed.
 
 (* first success within the budget: the call stops exactly there and returns its response *)
 Lemma handle_first_success c n ix cl k r :
-  no_crash c n -> on_retry c = true -> eff_idem c cl = true ->
+  no_crash c n -> has_retry c = true -> eff_idem c cl = true ->
   script cl k = Ok r -> (forall j, (j < k)%nat -> is_ok (script cl j) = false) ->
   (k <= budget_of c cl)%nat ->
   nattempts (handle c n ix cl) = S k /\ res (handle c n ix cl) = RResp r.
@@ -468,7 +468,7 @@ Qed.
 
 (* no success within the budget: budget + 1 attempts, and the last error is returned *)
 Lemma handle_all_fail c n ix cl :
-  no_crash c n -> on_retry c = true -> eff_idem c cl = true ->
+  no_crash c n -> has_retry c = true -> eff_idem c cl = true ->
   (forall j, (j <= budget_of c cl)%nat -> is_ok (script cl j) = false) ->
   nattempts (handle c n ix cl) = S (budget_of c cl) /\
   res (handle c n ix cl) = result_of (script cl (budget_of c cl)).
@@ -576,6 +576,112 @@ Lemma run_calls_lit_eq c n carry : forall cs ix prev,
 Proof.
   induction cs as [| cl cs IH]; intros ix prev; cbn [run_calls run_calls_lit map]; [reflexivity |].
   rewrite handle_lit_terminates by lia. rewrite IH. reflexivity.
+Qed.
+
+(* ================================================================== *)
+(* the back-off intervals steer nothing but the sleeps                 *)
+
+Definition cfg_core (c : cfg) := (retry c, idem c, on_failure c, has_retry c).
+Definition core_s (s : cstate) := (url s, index s, retried s, nfail s, nsucc s).
+Definition core_o (o : obs) := (attempts o, res o, core_s (fin o)).
+
+Lemma fail_step_core c c' n s s' :
+  on_failure c = on_failure c' -> core_s s = core_s s' ->
+  match fail_step c n s, fail_step c' n s' with
+  | None, None => True
+  | Some a, Some b => core_s a = core_s b
+  | _, _ => False
+  end.
+Proof.
+  intros Hf Hs. unfold core_s in Hs. injection Hs as Hu Hi Hr Hnf Hns.
+  unfold fail_step. rewrite <- Hf. destruct (on_failure c).
+  - unfold core_s. congruence.
+  - destruct (n <=? 0); [exact I |]. rewrite <- Hi. destruct (get_index (index s) n).
+    unfold core_s. cbn. congruence.
+  - unfold core_s. cbn. congruence.
+Qed.
+
+Lemma loop_core c c' n idm outs : cfg_core c = cfg_core c' -> forall b k s s',
+  core_s s = core_s s' ->
+  core_o (loop c n idm outs b k s) = core_o (loop c' n idm outs b k s').
+Proof.
+  intros Hc. unfold cfg_core in Hc. injection Hc as Hrt Hid Hof Hhr.
+  induction b as [| b IH]; intros k s s' Hs; rewrite (loop_eq c), (loop_eq c'); rewrite <- Hhr.
+  all: pose proof Hs as Hs0; unfold core_s in Hs0; injection Hs0 as Hu Hi Hr Hnf Hns.
+  all: destruct (outs k) as [r | e | p];
+    [unfold core_o, core_s; cbn; congruence | |].
+  all: pose proof (fail_step_core c c' n s s' Hof Hs) as Hfs.
+  all: destruct (fail_step c n s) as [s1 |], (fail_step c' n s') as [s1' |]; try contradiction;
+    [| unfold core_o, core_s; cbn; congruence].
+  all: destruct (has_retry c); cbn [negb];
+    [| unfold core_o; cbn; rewrite Hu, Hfs; reflexivity].
+  all: destruct idm; cbn [negb];
+    [| unfold core_o; cbn; rewrite Hu, Hfs; reflexivity].
+  all: try (unfold core_o; cbn; rewrite Hu, Hfs; reflexivity).
+  all: assert (Hrs : core_s (retry_step c n s1) = core_s (retry_step c' n s1'))
+    by (unfold core_s in *; cbn; congruence).
+  all: specialize (IH (S k) _ _ Hrs); unfold core_o in *; cbn [push attempts res fin];
+    congruence.
+Qed.
+
+(* one call: attempts, URLs, result, retried item and callback counts do not depend on
+   minInterval / maxInterval *)
+Lemma handle_intervals_irrelevant c c' n ix cl :
+  cfg_core c = cfg_core c' -> core_o (handle c n ix cl) = core_o (handle c' n ix cl).
+Proof.
+  intros Hc. unfold handle.
+  assert (eff_idem c cl = eff_idem c' cl) as ->.
+  { unfold eff_idem. unfold cfg_core in Hc. destruct (it_idem cl); congruence. }
+  assert (budget_of c cl = budget_of c' cl) as ->.
+  { unfold budget_of, eff_retry. unfold cfg_core in Hc. destruct (it_retry cl); congruence. }
+  apply loop_core; [exact Hc | reflexivity].
+Qed.
+
+(* the interval OnRetry returns never exceeds maxInterval, and is the product below it *)
+Lemma interval_clamp a m : (if a >? m then m else a) <= m /\ (a <= m -> (if a >? m then m else a) = a).
+Proof.
+  destruct (a >? m) eqn:Hgt; rewrite Z.gtb_ltb in Hgt;
+    [apply Z.ltb_lt in Hgt | apply Z.ltb_ge in Hgt]; split; lia.
+Qed.
+
+Lemma interval_of_spec c n rd :
+  interval_of c n rd <= max_interval c /\
+  (on_retry c = RFailover -> min_interval c * (rd - n) <= max_interval c ->
+   interval_of c n rd = min_interval c * (rd - n)) /\
+  (on_retry c <> RFailover -> min_interval c * rd <= max_interval c ->
+   interval_of c n rd = min_interval c * rd).
+Proof.
+  unfold interval_of. destruct (on_retry c); cbv zeta.
+  - pose proof (interval_clamp (min_interval c * rd) (max_interval c)) as [H1 H2].
+    repeat split; [exact H1 | discriminate | intros _; exact H2].
+  - pose proof (interval_clamp (min_interval c * rd) (max_interval c)) as [H1 H2].
+    repeat split; [exact H1 | discriminate | intros _; exact H2].
+  - pose proof (interval_clamp (min_interval c * (rd - n)) (max_interval c)) as [H1 H2].
+    repeat split; [exact H1 | intros _; exact H2 | congruence].
+Qed.
+
+(* one interval is recorded per retry *)
+Lemma loop_ivs_length c n idm outs b k s :
+  let o := loop c n idm outs b k s in
+  length (ivs (fin o)) = (length (ivs s) + nattempts o - 1)%nat.
+Proof.
+  apply (loop_induction c n idm outs
+    (fun b k s o => length (ivs (fin o)) = (length (ivs s) + nattempts o - 1)%nat));
+    unfold nattempts; cbn [stop push attempts length fin].
+  - intros. cbn. lia.
+  - intros. lia.
+  - intros b0 k0 s0 s1 _ Hf _. assert (ivs s1 = ivs s0) as ->; [| lia].
+    revert Hf. unfold fail_step. destruct (on_failure c).
+    + intros [= <-]. reflexivity.
+    + destruct (n <=? 0); [discriminate |]. destruct (get_index (index s0) n). intros [= <-]. reflexivity.
+    + intros [= <-]. reflexivity.
+  - intros b0 k0 s0 s1 _ Hf _ _ IH. rewrite IH. cbn [retry_step ivs length].
+    assert (ivs s1 = ivs s0) as ->.
+    { revert Hf. unfold fail_step. destruct (on_failure c).
+      + intros [= <-]. reflexivity.
+      + destruct (n <=? 0); [discriminate |]. destruct (get_index (index s0) n). intros [= <-]. reflexivity.
+      + intros [= <-]. reflexivity. }
+    pose proof (loop_bounds c n idm outs b0 (S k0) (retry_step c n s1)) as Hb. unfold nattempts in Hb. lia.
 Qed.
 
 (* ================================================================== *)
@@ -1136,7 +1242,7 @@ Proof.
 Qed.
 
 Lemma new_keeps c : idem (new c) = idem c /\ on_failure (new c) = on_failure c /\
-                    on_retry (new c) = on_retry c /\ (0 <= retry c -> retry (new c) = retry c).
+                    on_retry (new c) = on_retry c /\ min_interval (new c) = min_interval c /\ max_interval (new c) = max_interval c /\ (0 <= retry c -> retry (new c) = retry c).
 Proof.
   unfold new. destruct (retry c <? 0) eqn:H; cbn; repeat split; auto.
   apply Z.ltb_lt in H. lia.
@@ -1166,13 +1272,13 @@ Definition script_of (l : list outcome) (k : nat) : outcome := nth k l (Err 999)
    index wraps to 0 and the retry goes to server 0, the server that has just failed *)
 Lemma failover_moves_refuted :
   exists (c : cfg) (n : Z) (cs : list call) (o : obs) (j : nat) (u : Z),
-    c = new (failover_config 3 true) /\ 2 <= n /\
+    c = new (failover_config 3 true 0 0) /\ 2 <= n /\
     nth_error (run_calls c n false 0 None cs) 1 = Some o /\
     nth_error (attempts o) j = Some u /\ nth_error (attempts o) (S j) = Some u /\
     is_ok (script (nth 1 cs {| it_idem := None; it_retry := None; it_retried := 0;
                                script := script_of [] |}) j) = false.
 Proof.
-  exists (new (failover_config 3 true)), 2.
+  exists (new (failover_config 3 true 0 0)), 2.
   exists [ {| it_idem := None; it_retry := None; it_retried := 0; script := script_of [Err 1; Ok 2] |};
            {| it_idem := None; it_retry := None; it_retried := 0; script := script_of [Err 3; Ok 4] |} ].
   eexists. exists 0%nat, 0.
@@ -1182,7 +1288,7 @@ Qed.
 
 (* the same within a single call: any call that starts while the shared index is n-1 *)
 Lemma failover_moves_refuted_any c n cl :
-  on_failure c = FRotate -> 2 <= n -> on_retry c = true -> eff_idem c cl = true ->
+  on_failure c = FRotate -> 2 <= n -> has_retry c = true -> eff_idem c cl = true ->
   (0 < budget_of c cl)%nat -> is_ok (script cl 0%nat) = false ->
   firstn 2 (attempts (handle c n (n - 1) cl)) = [0; 0].
 Proof.
@@ -1197,7 +1303,7 @@ Proof.
     all: rewrite Hs1, Hr, Hi; cbn [negb].
     all: destruct (budget_of c cl) as [| b]; [lia |].
     all: cbn [push attempts length].
-    all: pose proof (loop_bounds c n true (script cl) b 1 (retry_step s1)) as Hbd.
+    all: pose proof (loop_bounds c n true (script cl) b 1 (retry_step c n s1)) as Hbd.
     all: unfold nattempts in Hbd; lia. }
   specialize (Hnth 1%nat ltac:(lia)).
   replace ((n - 1 + Z.of_nat 1) mod n) with 0 in Hnth
